@@ -111,6 +111,17 @@ func (fx *FuncExec) oblige(kind string, st *State, goal string, desc string, pos
 	if fx.functional && safetyKinds[kind] && kind != "guard" {
 		return
 	}
+	if fx.fc != nil && len(fx.fc.Check) > 0 && (safetyKinds[kind] || kind == "pre@call") {
+		ok := false
+		for _, k := range fx.fc.Check {
+			if k == kind {
+				ok = true
+			}
+		}
+		if !ok {
+			return
+		}
+	}
 	fx.counts[kind]++
 	ob := &Obligation{Kind: kind, Func: fx.relName(), Desc: desc, Safety: safetyKinds[kind],
 		prefix: len(fx.em.lines), pc: st.pc, goal: goal}
